@@ -30,6 +30,9 @@ def generate(tier, seed):
     n = 800 if tier == "quick" else 40000
     for k in range(n):
         cases.append({"kind": "built", "seed": "%d:b:%d" % (seed, k), "cost": 12})
+    n = 60 if tier == "quick" else 2000
+    for k in range(n):
+        cases.append({"kind": "models", "seed": "%d:m:%d" % (seed, k), "cost": 25})
     # every fragment of the library (each ligand group type, DNA residues) next to real protein
     from .. import fragments
     reps = 2 if tier == "quick" else 30
@@ -180,6 +183,15 @@ def run_case(case, tier):
         recs = sources.repo_recs(case["file"])
         desc["file"] = case["file"]
         optset = case["optset"]
+    elif case["kind"] == "models":
+        # several MODELs with point mutants / missing atoms, residues or chains (no alt-loc tags)
+        from .. import multiconf
+        for _ in range(10):
+            recs, d = multiconf.build(rng)
+            if d["mode"] == "models":
+                break
+        desc.update({"multiconf": d.get("events")})
+        optset = "none"
     elif case["kind"] == "fragment":
         from .. import fragments
         recs = sources.random_small_structure(rng, 60, 500)
@@ -209,7 +221,7 @@ def run_case(case, tier):
                 r = r.copy()
                 r.alt = " "
                 recs[i] = r
-        if case["kind"] != "fragment":
+        if case["kind"] not in ("fragment", "models"):
             recs = edit_layout(recs, rng, desc)
             optset = None
     opts, optset, chains, tlist = pick_options(rng, recs, optset)
@@ -223,7 +235,8 @@ def run_case(case, tier):
     else:
         before = len(viol)
         cen = census_mon.check(run, text, viol, counts, classes, chains=chains,
-                               titrate_only=set(tlist) if tlist is not None else None)
+                               titrate_only=set(tlist) if tlist is not None else None,
+                               allow_topup_extras=(case["kind"] == "models"))
     if desc.get("declared") and run.rec:
         conf = run.rec["confs"][run.rec["names"][0]]
         got = {g["aid"][5]: g["type"] for g in conf["groups"] if g["aid"][2] == 900 and g["aid"][1] == "L"}
